@@ -20,6 +20,7 @@ type LedgerGenOpts struct {
 	Replays              bool
 	BigAmounts           bool
 	DirectSlashes        bool // direct calls of the slash entry point with random parameters
+	SecondHolder         bool // a simulated second AVS places / lifts holds on pending undelegations
 	NSTUpdates           bool // direct native-restaking balance adjustments (when the config has an NST asset)
 }
 
